@@ -17,6 +17,12 @@ type tgen struct {
 	maxSegs int
 	maxNest int
 	nkey    int
+	// merged: a fan-in has been generated, so that streams of one chunk per predecessor exist.
+	// From then on no field mapping targets a struct field: concatenating partial structs is the
+	// (C15) open finding stream-struct-fan-in, not what this check is about.
+	merged bool
+	// lazyBias: this case prefers nodes that hand their input stream on unread
+	lazyBias bool
 }
 
 var keyAlphabet = []string{"a", "b", "c", "d"}
@@ -123,10 +129,17 @@ func (g *tgen) fill(n *tnode, allowSame bool) {
 	r := g.r
 	n.Para = g.para()
 	n.Seed = r.Uint64()
-	if allowSame && r.Prob(0.3) {
+	pSame := 0.3
+	if g.lazyBias {
+		pSame = 0.75
+	}
+	if allowSame && r.Prob(pSame) {
 		n.Out = n.In
 		n.Dyn = dSame
-		n.Lazy = n.Para&pT != 0 && r.Prob(0.75)
+		if g.lazyBias {
+			n.Para |= pT // a chain of stream-transparent nodes: the first reader is far downstream, often the caller
+		}
+		n.Lazy = n.Para&pT != 0 && (g.lazyBias || r.Prob(0.75))
 		return
 	}
 	n.Out = mon.PickOne(r, []ty{tStr, tStr, tAny, tAny, tAny, tNamed, tPtr, tRec, tMap, tMap})
@@ -163,7 +176,7 @@ func (g *tgen) genNode(ps []pend, cont string, depth int, allowPass bool) *tnode
 		if okStatic {
 			// what will arrive, if it is a map at all
 			probe := &rres{}
-			v := probe.deliver(ps, tMap)
+			v, _ := probe.deliver(ps, tMap)
 			if m, ok := v.(map[string]any); ok && !probe.stopped() {
 				keyed = true
 				ks := mon.SortedKeys(m)
@@ -202,7 +215,7 @@ func (g *tgen) genNode(ps []pend, cont string, depth int, allowPass bool) *tnode
 		var v any
 		if n.InKey != "" {
 			probe2 := &rres{}
-			m := probe2.deliver(ps, tMap)
+			m, _ := probe2.deliver(ps, tMap)
 			if mm, ok := m.(map[string]any); ok {
 				v = mm[n.InKey]
 			}
@@ -210,7 +223,7 @@ func (g *tgen) genNode(ps []pend, cont string, depth int, allowPass bool) *tnode
 				v = g.genInput(n.In)
 			}
 		} else {
-			v = probe.deliver(ps, n.In)
+			v, _ = probe.deliver(ps, n.In)
 			if probe.stopped() {
 				v = g.genInput(n.In)
 			}
@@ -236,7 +249,7 @@ func (g *tgen) genSpec(cont string, inTy ty, in any, depth int) *tspec {
 	if depth > 0 {
 		nseg = r.Range(1, 2)
 	}
-	cur := []pend{{in, inTy}}
+	cur := []pend{{in, inTy, false}}
 	lastKind := "start"
 	for i := 0; i < nseg; i++ {
 		kind := "node"
@@ -284,83 +297,17 @@ type prefixEval struct {
 }
 
 // evalSpecPrefix evaluates the segments generated so far and returns what would be delivered to
-// the next consumer. If the evaluation stops (failure / undefined) cur is a type-correct stand-in.
+// the next consumer (stand-ins of the declared types if the evaluation stops on the way).
 func evalSpecPrefix(s *tspec, in any) prefixEval {
-	// run the reference on a copy that ends in a consumer that accepts anything
 	r := &rres{}
-	cur := []pend{{in, s.In}}
-	for _, sg := range s.Segs {
-		var next []pend
-		switch sg.Kind {
-		case "node":
-			n := sg.Nodes[0]
-			to := n.effIn()
-			oty := n.effOut()
-			if n.Pass {
-				to, oty = cur[0].Ty, cur[0].Ty
-			}
-			var out any
-			if !r.stopped() {
-				v := r.consume(cur, to, n.Map, n.JoinKeys)
-				if !r.stopped() {
-					out = r.runNode(n, v)
-				}
-			}
-			next = []pend{{out, oty}}
-		case "par":
-			for _, n := range sg.Nodes {
-				var out any
-				if !r.stopped() {
-					v := r.consume(cur, n.effIn(), n.Map, nil)
-					if !r.stopped() {
-						out = r.runNode(n, v)
-					}
-				}
-				next = append(next, pend{out, n.effOut()})
-			}
-		case "branch":
-			var out any
-			oty := sg.Nodes[0].effOut()
-			if !r.stopped() {
-				cv := r.edge(cur[0].V, cur[0].Ty, sg.CondTy)
-				if !r.stopped() {
-					n := sg.Nodes[pickTarget(sg.CondRule, cv, len(sg.Nodes))]
-					v := r.consume(cur, n.effIn(), nil, nil)
-					if !r.stopped() {
-						out = r.runNode(n, v)
-					}
-				}
-			}
-			next = []pend{{out, oty}}
-		}
-		cur = next
-	}
-	if r.stopped() {
-		// stand-ins of the declared types, so that the rest of the program is still well-formed
-		for i := range cur {
-			cur[i].V = zeroOf(cur[i].Ty)
-		}
-	}
+	cur := r.segs(s, []pend{{in, s.In, false}}, refEnv{})
 	return prefixEval{r, cur}
-}
-
-func zeroOf(t ty) any {
-	switch t {
-	case tStr:
-		return ""
-	case tPtr:
-		return (*Rec)(nil)
-	case tRec:
-		return Rec{}
-	case tMap:
-		return map[string]any(nil)
-	}
-	return nil
 }
 
 // genPar: 2-3 parallel nodes that fan in at the next consumer.
 func (g *tgen) genPar(s *tspec, cur []pend, cont string, depth int) []*tnode {
 	r := g.r
+	g.merged = true
 	k := r.Range(2, 3)
 	mode := "keys"
 	if cont == "pregel" || cont == "dag" {
@@ -564,7 +511,7 @@ func (g *tgen) genMapping(p pend) (*fmapSpec, ty) {
 	// the target: the whole input, or a field / key of it
 	toWhole := m.From != "" && r.Prob(0.5)
 	if toWhole {
-		return m, g.chooseIn([]pend{{taken, ft}}, 0.85)
+		return m, g.chooseIn([]pend{{taken, ft, false}}, 0.85)
 	}
 	// candidates (successor type, field) whose field type may take ft
 	type cand struct {
@@ -574,6 +521,9 @@ func (g *tgen) genMapping(p pend) (*fmapSpec, ty) {
 	}
 	var cands []cand
 	for _, in := range []ty{tRec, tPtr} {
+		if g.merged {
+			break
+		}
 		for _, f := range recFields {
 			tft, _ := fieldTy(in, f)
 			if latOf(ft, tft) != latMustNot {
